@@ -133,8 +133,8 @@ def run(ck: Check):
                "resource_usage()*size of evaluate_mapping; tight worlds have small inner memories so that rejection is "
                "exercised. Non-trivial = some memory where lowering or liveness makes a difference (peak or footprint "
                "below the unlowered tile sum); distinct by (world, node sequence).")
-    ck.assumptions += ["fused multi-Einsum mappings, persistent tensors and n_instances scaling of C06 are not yet "
-                       "covered by this check (single-Einsum nests only)"]
+    ck.assumptions += ["persistent tensors and n_instances scaling of C06 are not covered; fused trees are those the real "
+                       "mapper returns on 2- and 3-Einsum chains (one Sequential split; nested splits are counted, not modelled)"]
     small = _worlds(ck, 1, 1, exhaustive=True)
     ln.coverage_run(ck, small, "MC_LoopNest_tiny.cfg", "cov")
     ex = _worlds(ck, 2 if not thorough else 5, 10, exhaustive=True)
@@ -152,11 +152,233 @@ def run(ck: Check):
             raise Machinery("MC_LoopNest simulation failed: %s\n%s" % (res.violated, res.tail))
         compare(ck, sim, res.records, ln.evaluate_records(ck, sim, res.records), "simulate tight=%s" % tight)
     ck.extra["role_A"] = "FootprintLemma (Peak <= Footprint <= Tile) and ExecOK hold on every explored mapping"
+    fused_part(ck)
+
+
+def chain_spec(rng, n_einsums):
+    """(arch yaml, workload yaml, world) for a chain of matmuls T_{i+1}[m,n_{i+1}] = T_i[m,n_i] W_i[n_i,n_{i+1}]."""
+    m = rng.choice([2, 4])
+    ns = [rng.choice([2, 4]) for _ in range(n_einsums + 1)]
+    glb = rng.choice([128, 256, 512, 2048])
+    e = [rng.randint(1, 8) for _ in range(5)]
+    arch = """
+arch:
+  nodes:
+  - !Memory
+    name: DRAM
+    size: inf
+    leak_power: 0
+    area: 0
+    tensors: {keep: ~Intermediates, may_keep: All}
+    actions:
+    - {name: read, energy: %d, throughput: 2}
+    - {name: write, energy: %d, throughput: 2}
+  - !Memory
+    name: GLB
+    size: %d
+    leak_power: 0
+    area: 0
+    tensors: {keep: ~DRAM, may_keep: All}
+    actions:
+    - {name: read, energy: %d, throughput: 4}
+    - {name: write, energy: %d, throughput: inf}
+  - !Compute
+    name: MAC
+    leak_power: 0
+    area: 0
+    actions:
+    - {name: compute, energy: %d, throughput: 1}
+""" % (e[0], e[1], glb, e[2], e[3], e[4])
+    wl = ["workload:", "  iteration_space_shape:", "    m: 0 <= m < %d" % m]
+    for i, b in enumerate(ns):
+        wl.append("    n%d: 0 <= n%d < %d" % (i, i, b))
+    wl += ["  bits_per_value: {All: 8}", "  einsums:"]
+    einsums, proj = [], {}
+    for i in range(n_einsums):
+        wl += ["  - name: M%d" % i, "    tensor_accesses:",
+               "    - {name: T%d, projection: [m, n%d]}" % (i, i),
+               "    - {name: W%d, projection: [n%d, n%d]}" % (i, i, i + 1),
+               "    - {name: T%d, projection: [m, n%d], output: True}" % (i + 1, i + 1)]
+        einsums.append({"name": "M%d" % i, "tensors": ["T%d" % i, "W%d" % i, "T%d" % (i + 1)]})
+        proj["T%d" % i] = ["m", "n%d" % i]
+        proj["W%d" % i] = ["n%d" % i, "n%d" % (i + 1)]
+        proj["T%d" % (i + 1)] = ["m", "n%d" % (i + 1)]
+    bound = {"m": m}
+    bound.update({"n%d" % i: b for i, b in enumerate(ns)})
+    world = {"bound": bound, "proj": proj, "level": {"DRAM": 0, "GLB": 1}, "istoll": {"DRAM": False, "GLB": False},
+             "bits": {c: {t: 8 for t in proj} for c in ("DRAM", "GLB")}, "einsums": einsums, "size": {"DRAM": 0, "GLB": glb}}
+    return arch, "\n".join(wl) + "\n", world
+
+
+def _fused_job(args):
+    arch, wl, metrics, d = args
+    import os, traceback
+    try:
+        import functools, operator
+        from accelforge.frontend.spec import Spec
+        from accelforge.mapper import Metrics
+        from accelforge.mapper.FFM.main import map_workload_to_arch
+        from accelforge.util.parallel import set_n_parallel_jobs
+        from checks import mapper_common as mc
+        set_n_parallel_jobs(1)
+        os.makedirs(d, exist_ok=True)
+        os.chdir(d)
+        tag = "f%d" % os.getpid()
+        pa, pw = os.path.join(d, tag + "_a.yaml"), os.path.join(d, tag + "_w.yaml")
+        open(pa, "w").write(arch)
+        open(pw, "w").write(wl)
+        spec = Spec.from_yaml(pa, pw)
+        spec.mapper.metrics = functools.reduce(operator.or_, [getattr(Metrics, m) for m in metrics])
+        r = map_workload_to_arch(spec, print_progress=False)
+        rows = []
+        for i in range(len(r.data)):
+            one = r[i]
+            usage = {k: mc._x(v) for k, v in one.resource_usage().items()}
+            try:
+                nodes = mc.export_tree(r.data.iloc[i]["Total<SEP>mapping"]())
+            except Exception as e:
+                nodes = None
+            rows.append({"usage": usage, "nodes": nodes})
+        return {"rows": rows}
+    except Exception as e:
+        return {"exception": "%s: %s" % (type(e).__name__, e), "traceback": traceback.format_exc()[-3000:]}
+
+
+def fused_part(ck):
+    """Fused multi-Einsum clause: every mapping the real mapper returns on 2- and 3-Einsum chains (front with
+    RESOURCE_USAGE as an objective, so that many differently fused trees come back) is one case of
+    spec/FusedNest.tla; the reported usage * size must equal the spec's peak (tile-level first-to-last-use
+    liveness at the streamed reservation position)."""
+    import os
+    from concurrent.futures import ProcessPoolExecutor
+    from checks import mapper_common as mc
+    thorough = ck.tier == "thorough"
+    rng = random.Random(ck.seed * 29 + 606)
+    specs = [chain_spec(rng, 2) for _ in range(3 if not thorough else 10)] + \
+            [chain_spec(rng, 3) for _ in range(1 if not thorough else 4)]
+    d = os.path.join(ck.work, "fused")
+    jobs = []
+    for a, w, world in specs:
+        for mset in (("ENERGY", "LATENCY", "RESOURCE_USAGE"), ("ENERGY",)):
+            jobs.append((a, w, mset, d))
+    with ProcessPoolExecutor(6) as ex:
+        outs = list(ex.map(_fused_job, jobs))
+    cases, meta, unsupported, total = [], {}, 0, 0
+    for ji, (job, o) in enumerate(zip(jobs, outs)):
+        ck.evaluations += 1
+        world = specs[ji // 2][2]
+        if "exception" in o:
+            ck.impl_errors += 1
+            if ck.impl_error_sample is None:
+                ck.impl_error_sample = {"case": "fused job %d" % ji, "traceback": o["exception"] + "\n" + o["traceback"]}
+            continue
+        for ri, row in enumerate(o["rows"]):
+            total += 1
+            if row["nodes"] is None:
+                unsupported += 1
+                continue
+            cid = "F%d/%d" % (ji, ri)
+            cases.append({"id": cid, "world": world, "nodes": row["nodes"]})
+            meta[cid] = (job, world, row)
+    ck.extra["fused_rows"] = total
+    ck.extra["fused_rows_with_nested_splits_not_modelled"] = unsupported
+    if total == 0:
+        raise Machinery("the mapper returned nothing on every chain spec")
+    if not cases:
+        raise Machinery("spec gap: every returned fused tree has a shape FusedNest does not model")
+    path = os.path.join(ck.work, "fused_cases.json")
+    json.dump(cases, open(path, "w"))
+    res = ck.tlc("FusedNest", "FusedNest.cfg", env={"CASES_FILE": path}, coverage=False, workers=1, timeout=2400)
+    if not res.ok or len(res.records) != len(cases):
+        raise Machinery("FusedNest run failed: %s\n%s" % (res.violated, res.tail))
+    fused_seen = 0
+    for v in res.records:
+        job, world, row = meta[v["id"]]
+        ck.traces += 1
+        nodes = row["nodes"]
+        is_fused = any(n["kind"] == "T" and n["br"] == 0 for n in nodes)
+        if is_fused:
+            fused_seen += 1
+            ck.count_nontrivial(("fused", json.dumps(nodes)))
+        if not v["views_ok"]:
+            ck.violation("C06/fused/returned-tree-has-ill-formed-einsum-view",
+                         "a per-Einsum view of the returned tree is not a well-formed mapping: %s" % nodes,
+                         {"kind": "fused", "arch": job[0], "workload": job[1], "metrics": job[2], "world": world, "nodes": nodes})
+            continue
+        for m, size in world["size"].items():
+            if not size:
+                continue
+            got = mc.fr(row["usage"].get(m, [0, 1])) * size
+            if got != v["peak"][m]:
+                kind = "under-reservation" if got < v["peak"][m] else "over-reservation"
+                ck.violation("C06/fused/%s" % kind,
+                             "fused tree %s: reported %s bits in %s, execution-time peak of the live tiles is %s"
+                             % ([(n.get("mem"), n.get("t"), n["br"]) if n["kind"] == "S" else (n.get("rv"), n.get("tile"), n["br"]) if n["kind"] == "T" else ("C", n["br"]) for n in nodes],
+                                got, m, v["peak"][m]),
+                             {"kind": "fused", "arch": job[0], "workload": job[1], "metrics": job[2], "world": world, "nodes": nodes,
+                              "memory": m})
+    ck.extra["fused_trees_with_shared_loops"] = fused_seen
+    if len(ck.samples) < 6 and cases:
+        c = cases[len(cases) // 2]
+        ck.sample({"generator": "mapper result on a chain", "nodes": c["nodes"], "spec_peak": next(v["peak"] for v in res.records if v["id"] == c["id"]),
+                   "reported_usage": {k: str(mc.fr(x)) for k, x in meta[c["id"]][2]["usage"].items()}})
+
+
+def fused_mapping_yaml(nodes):
+    def line(n, ind):
+        if n["kind"] == "S":
+            return "%s- !Storage {tensors: [%s], component: %s}" % (ind, n["t"], n["mem"])
+        if n["kind"] == "T":
+            return "%s- !Temporal {rank_variable: %s, tile_shape: %d}" % (ind, n["rv"], n["tile"])
+        return "%s- !Compute {einsum: %s, component: MAC}" % (ind, n["einsum"])
+    out = ["mapping:", "  nodes:"]
+    out += [line(n, "  ") for n in nodes if n["br"] == 0]
+    brs = sorted({n["br"] for n in nodes if n["br"]})
+    if len(brs) == 1:
+        out += [line(n, "  ") for n in nodes if n["br"]]
+    else:
+        out += ["  - !Sequential", "    nodes:"]
+        for b in brs:
+            out += ["    - !Nested", "      nodes:"]
+            out += [line(n, "      ") for n in nodes if n["br"] == b]
+    return "\n".join(out) + "\n"
+
+
+def replay_fused(path, rec):
+    import os
+    from accelforge.frontend.spec import Spec
+    from accelforge.model.main import evaluate_mapping
+    from checks import mapper_common as mc
+    d = os.path.join(os.path.dirname(os.path.abspath(path)), "_replay_tmp")
+    os.makedirs(d, exist_ok=True)
+    for name, txt in (("a", rec["arch"]), ("w", rec["workload"]), ("m", fused_mapping_yaml(rec["nodes"]))):
+        open(os.path.join(d, name + ".yaml"), "w").write(txt)
+    r = evaluate_mapping(Spec.from_yaml(*[os.path.join(d, x + ".yaml") for x in "awm"]))
+    usage = r.resource_usage()
+    ck = Check("C06", "quick", 0)
+    ck.work = d
+    p = os.path.join(d, "case.json")
+    json.dump([{"id": "r", "world": rec["world"], "nodes": rec["nodes"]}], open(p, "w"))
+    res = ck.tlc("FusedNest", "FusedNest.cfg", env={"CASES_FILE": p}, coverage=False, workers=1, timeout=600)
+    v = res.records[0]
+    bad = False
+    for m, size in rec["world"]["size"].items():
+        if size:
+            got = Fraction(*float(usage.get(m, 0)).as_integer_ratio()) * size
+            print("%s: model %s bits, spec peak %s" % (m, got, v["peak"][m]))
+            bad |= got != v["peak"][m]
+    if bad:
+        print("VIOLATION property=C06 replay=%s" % path)
+        return 1
+    print("no disagreement on this case")
+    return 0
 
 
 def replay(path):
     import os
     rec = json.load(open(path))
+    if rec.get("kind") == "fused":
+        return replay_fused(path, rec)
     w = rec["world"]
     d = os.path.join(os.path.dirname(os.path.abspath(path)), "_replay_tmp")
     out = ms.evaluate(w, rec["nodes"], d, "replay")
